@@ -943,53 +943,30 @@ class Normaliser:
             return False
 
         def conv(stmts):
+            """`stmts` is always a complete continuation (everything that runs up to the end of the helper), so a list that ends
+            without a return has fallen off the end of the helper and yields None.  An `if` that returns on some path takes the
+            statements after it into both arms: a path that returns never reaches them, a path that falls through a NESTED if
+            continues with them (it used to be given the result None at the nested level -- an unsound rewrite)."""
             out = []
             for i, st in enumerate(stmts):
-                last = i == len(stmts) - 1
                 if isinstance(st, ast.Return):
                     out.extend(result(st.value))
-                    return out, True
-                if isinstance(st, ast.If):
-                    if has_return([st]):
-                        rest = stmts[i + 1:]
-                        b, br = conv(st.body)
-                        # statements after the if run only on the paths that did not return
-                        if st.orelse:
-                            o, orr = conv(st.orelse + ([] if False else []))
-                        else:
-                            o, orr = [], False
-                        if rest:
-                            if br and not orr:
-                                o2, orr2 = conv((st.orelse or []) + rest)
-                                out.append(ast.If(test=st.test, body=b or [ast.Pass()], orelse=o2))
-                                return out, orr2 and br
-                            if orr and not br:
-                                b2, br2 = conv(st.body + rest)
-                                out.append(ast.If(test=st.test, body=b2 or [ast.Pass()], orelse=o))
-                                return out, br2 and orr
-                            if br and orr:
-                                out.append(ast.If(test=st.test, body=b or [ast.Pass()], orelse=o))
-                                return out, True
-                            ok[0] = False
-                            return out, False
-                        if not br:
-                            b = b + result(None)
-                        if not orr:
-                            o = o + result(None)
-                        out.append(ast.If(test=st.test, body=b or [ast.Pass()], orelse=o))
-                        return out, True
-                    out.append(st)
-                    continue
+                    return out
+                if isinstance(st, ast.If) and has_return([st]):
+                    rest = stmts[i + 1:]
+                    b = conv(list(st.body) + rest)
+                    o = conv(list(st.orelse or []) + copy.deepcopy(rest))
+                    out.append(ast.If(test=st.test, body=b or [ast.Pass()], orelse=o))
+                    return out
                 if has_return([st]):
                     ok[0] = False         # return inside a loop / with / try
-                    return out, False
+                    return out
                 out.append(st)
-            return out, False
-        new, returned = conv(body)
+            out.extend(result(None))
+            return out
+        new = conv(body)
         if not ok[0]:
             return None
-        if not returned:
-            new = new + result(None)
         self.inlined.add(fname)
         return new
 
